@@ -7,4 +7,5 @@ Next == \E op \in SEnabledOps(st) : st' = SApply(st, op)
 Spec == Init /\ [][Next]_st
 FramingIntact == FramingIntactOf(st)
 StreamOrder == StreamOrderOf(st)
+NoCorruptMessage == NoCorruptMessageOf(st)
 =============================================================================
